@@ -101,6 +101,9 @@ func (d Dict) Equal(v Value) bool {
 	switch v := v.(type) {
 	case Dict:
 		return d.equalDict(v)
+	case Closure, ExprClosure, *NativeFunction:
+		// A function can be neither counted nor enumerated and never equals a dictionary.
+		return false
 	case Set:
 		if d.IsTrue() != v.IsTrue() || d.Count() != v.Count() {
 			return false
